@@ -57,6 +57,7 @@ def cases(draw, max_chroms=3, max_bins=5, max_chunks=9):
             "shuffle_within": draw(st.sampled_from(["full", "within-rows", "none"])) if ensure_sorted else "none",
             "count_dtype": count_dtype,
             "ensure_sorted": ensure_sorted,
+            "checks_off": draw(st.sampled_from([[], [], [], ["boundscheck", "triucheck", "dupcheck"], ["dupcheck"], ["boundscheck", "dupcheck"], ["triucheck"]])),
             "mergebuf": draw(st.sampled_from([1, 2, 3, 5, 10, 10**6])),
             "max_merge": draw(st.sampled_from([1, 2, 3, 200])),
             "cols": draw(st.sampled_from([["count"], ["count", "x"]])),
@@ -103,6 +104,9 @@ def check_unordered(case, ctx: Ctx):
         kw["columns"] = list(cols)
     if cdt != "int32":
         kw["dtypes"] = {"count": np.dtype(cdt)}
+    for flag in case.get("checks_off", []):
+        if flag != "triucheck" or symmetric:
+            kw[flag] = False
     try:
         before = sorted(os.listdir(tdir))
         call("create_cooler(ordered=False)", cooler.create_cooler, uri, gen.bins_df(bt),
@@ -148,7 +152,7 @@ def check_unordered(case, ctx: Ctx):
                           "emptychunk" if len(nonempty) < len(case["chunks"]) else "no-emptychunk",
                           f"mergebuf={case['mergebuf']}", "sym" if symmetric else "square",
                           "ensure_sorted" if case["ensure_sorted"] else "presorted", "shuffle=" + str(case["shuffle_within"]),
-                          "count=" + cdt])
+                          "count=" + cdt, "checks-off=" + ("+".join(case.get("checks_off", [])) or "none")])
 
 
 def check_big(case, ctx: Ctx):
